@@ -256,6 +256,20 @@ def run_one(case, tally):
                 if rx.goaway is None:
                     findings.append({"clause": "keepalive-max", "sig": "C18.keepalive-max/no-goaway/h2", "backend": be,
                                      "detail": "%d requests on one HTTP/2 connection with keep_alive_max_requests=%d and no GOAWAY" % (nreq, lim)})
+                else:
+                    # told to stop *gracefully*: no error code, the announced last stream is the last one handed to the application
+                    # (so that the client knows exactly which requests to repeat elsewhere), and a later GOAWAY never raises it
+                    lasts = [g.get("last") for g in rx.goaways]
+                    started_ids = [1 + 2 * i for i, tg in enumerate(tags) if any(e[4]["scope"].get("path") == "/t%d" % tg for e in ob.app_events(kind="start"))]
+                    if rx.goaways[0].get("code", 0) != 0:
+                        findings.append({"clause": "keepalive-max", "sig": "C18.keepalive-max/goaway-error-code/h2", "backend": be,
+                                         "detail": "GOAWAY at the request limit carries error code %r" % rx.goaways[0].get("code")})
+                    elif started_ids and lasts[0] != max(started_ids):
+                        findings.append({"clause": "keepalive-max", "sig": "C18.keepalive-max/goaway-last-stream/h2", "backend": be,
+                                         "detail": "GOAWAY names last stream %r but streams %r were handed to the application" % (lasts[0], started_ids)})
+                    elif any(b > a for a, b in zip(lasts, lasts[1:])):
+                        findings.append({"clause": "keepalive-max", "sig": "C18.keepalive-max/goaway-last-stream-raised/h2", "backend": be,
+                                         "detail": "successive GOAWAY frames name last streams %r" % lasts})
                 # every request the server started must be answered (the client was told to stop, not cut off)
                 started_tags = set()
                 for e in ob.app_events(kind="start"):
